@@ -175,6 +175,27 @@ func c07Run(r *core.Run) {
 		if mv.Clause == "qe-miscselect-length" || mv.Clause == "qe-attributes-length" {
 			r.Probe("wrong_mask_length")
 		}
+		// the message form carries ISVSVN and ISVPRODID as 32-bit numbers although the signed report holds 16:
+		// a message whose high bits are set is not the report the PCK key signed, whatever level the larger
+		// number would select
+		if t.Chance(1, 3) {
+			m := w.Quote.Proto(0)
+			rep := m.SignedData.CertificationData.QeReportCertificationData.QeReport
+			bit := uint32(1) << (16 + t.Draw(16))
+			what := "isv_svn"
+			if t.Bool() {
+				rep.IsvSvn |= bit
+			} else {
+				rep.IsvProdId |= bit
+				what = "isv_prod_id"
+			}
+			om := verifyMsg(m, opts)
+			r.Eval()
+			r.Probe("message_form_high_bits_in_qe_report")
+			if om.Accepted() {
+				r.Violate("C07:accepted:message-qe-report-"+what+"-beyond-16-bits", "a quote message whose QE report %s has bit %#x set (the signed report holds 16 bits) was accepted; identity levels=%v", what, bit, w.QE.Levels)
+			}
+		}
 		switch {
 		case mv.Exp == world.MustReject && o.Accepted():
 			r.Violate("C07:accepted:"+clauseKind(mv.Clause), "quote accepted although the QE does not match the signed QE identity (%s): report isvsvn=%d prodid=%d misc=%#x; identity levels=%v", mv.Clause, w.Quote.QE.IsvSvn, w.Quote.QE.IsvProdID, w.Quote.QE.MiscSelect, w.QE.Levels)
@@ -200,6 +221,6 @@ func init() {
 			return 1500
 		},
 		Run:       c07Run,
-		MustProbe: []string{"first_match_not_first_level", "no_level_matches", "wrong_mask_length", "timeline_through_one_options_value"},
+		MustProbe: []string{"first_match_not_first_level", "no_level_matches", "wrong_mask_length", "timeline_through_one_options_value", "message_form_high_bits_in_qe_report"},
 	})
 }
